@@ -175,61 +175,93 @@ def run(ctx):
     unr = [c for c in calls(fl.node) if ast.unparse(c.func) == "np.unravel_index"]
     ctx.expect(len(orders) == 1 and n_calls >= 2 and len(unr) == 1, "R15.3", "WaveSpectrum.flatten[one order]",
                "coordinates are unravelled and data reshaped with the same (C) memory order", fl.loc(), derived=str(sorted(orders)))
-    from .fc import local_assignments as _la
-    fla = _la(fl.node)
-    rs = [c for c in calls(fl.node) if ast.unparse(c.func).endswith(".reshape") and c.args]
-    shp = [substitute_defs(fl.node, c.args[0], {"self"}) for c in rs]
-    tup = [x for x in shp if isinstance(x, ast.Tuple) and x.elts and isinstance(x.elts[0], ast.Name)]
-    lens = {x.elts[0].id for x in tup}
-    oks = len(tup) == len(shp) >= 2 and len(lens) == 1
+    # one length: decided on the extracted terms, so the way the locals are computed does not matter
+    WSQ = CLS_WS
+    itf = spec_interp(p, {WSQ + ".space_time_shape": "stshape", WSQ + ".spectral_shape": "spshape"})
+    rf = itf.call_function(fl, [spectrum_self(p, CLS_1D)], {}, None)
+    vals = []
+    if isinstance(rf, Obj) and isinstance(rf.fields.get("dataset"), DatasetVal):
+        vals = [T.to_term(v) for v in rf.fields["dataset"].items.values()]
+    resh = [x for v in vals for x in T.find_ops(v, "reshape")]
+    unrs = [x for v in vals for x in T.find_ops(v, "unravel_index")]
+    firsts = {x.args[1].args[0] for x in resh if isinstance(x.args[1], sp.Tuple) and x.args[1].args}
+    oks = len(resh) >= 2 and len(firsts) == 1 and len({u.args[1] for u in unrs}) == 1 and bool(unrs)
+    detail = ""
     if oks:
-        L = next(iter(lens))
-        plain = [x for x in tup if len(x.elts) == 1]
-        spec_ = [x for x in tup if len(x.elts) == 2 and isinstance(x.elts[1], ast.Starred)
-                 and ast.unparse(x.elts[1].value) == "self.spectral_shape()"]
-        S = ast.unparse(unr[0].args[1]) if unr and len(unr[0].args) > 1 else None
-        ldefs = [ast.unparse(d[1]) for d in fla.get(L, []) if d[0] == "assign"]
-        sdefs = [ast.unparse(d[1]) for d in fla.get(S or "", []) if d[0] == "assign"]
-        oks = bool(plain) and bool(spec_) and len(plain) + len(spec_) == len(tup) and S is not None \
-            and f"np.prod({S})" in ldefs and "self.space_time_shape()" in sdefs
+        Lt = next(iter(firsts))
+        St = unrs[0].args[1]
+        S0 = [x for x in T.find_ops(Lt, "stshape")]
+        single = [c for c in T.subterms(Lt) if fname(c) == "eq" and T.find_ops(c, "stshape")]
+        if S0 and len(single) == 1:
+            many = {single[0]: False}
+            one = {single[0]: True}
+            oks = T.equivalent(T.assume(Lt, many), op("prod", S0[0], T.NONE_T)) == T.Verdict.EQUAL and T.assume(Lt, one) == 1 \
+                and T.assume(St, many) == S0[0] and T.assume(St, one) == sp.Tuple(sp.Integer(1))
+        else:
+            oks = S0 and T.equivalent(Lt, op("prod", S0[0], T.NONE_T)) == T.Verdict.EQUAL and St == S0[0]
+        idxs = {T.show(u.args[0], 80) for u in unrs}
+        oks = bool(oks) and all(fname(u.args[0]) == "arange" and u.args[0].args[-1] == Lt and (len(u.args[0].args) == 1 or u.args[0].args[0] == 0)
+                                for u in unrs)
+        detail = f"length {T.show(Lt, 120)}; unravel over {T.show(St, 120)}; indices {sorted(idxs)}"
     ctx.expect(bool(oks), "R15.3", "WaveSpectrum.flatten[one length]",
-               "the flattened length is the product of the space-time shape for coordinates, spectral and non-spectral variables alike",
-               fl.loc(), derived=str([ast.unparse(x) for x in shp]))
+               "the flattened length is the product of the space-time shape (1 for a single spectrum) for coordinates, spectral and "
+               "non-spectral variables alike, and the coordinates are unravelled over that same shape", fl.loc(), derived=detail)
+    ctx.absorb(itf)
     # load dispatch
     it = spec_interp(p)
     ld = p.get_function(SPEC + "load_spectrum_from_netcdf")
     tests = [n for n in own_walk(ld.node) if isinstance(n, ast.If)]
     import re as _re
     t0 = ast.unparse(substitute_defs(ld.node, tests[0].test, set())) if len(tests) == 1 else ""
-    okl = len(tests) == 1 and bool(_re.fullmatch(r"(NAME_D|'direction') in xarray\.open_dataset\(.*\)\.coords", t0)) \
-        and "FrequencyDirectionSpectrum(" in ast.unparse(ast.Module(body=tests[0].body, type_ignores=[])) \
-        and "FrequencySpectrum(" in ast.unparse(ast.Module(body=tests[0].orelse, type_ignores=[])) \
-        and "FrequencyDirectionSpectrum(" not in ast.unparse(ast.Module(body=tests[0].orelse, type_ignores=[]))
+    okl = len(tests) == 1 and bool(_re.fullmatch(r"(NAME_D|'direction') in xarray\.open_dataset\(.*\)\.coords", t0))
+    if okl:
+        tst = tests[0]
+        rets_ = [n for n in own_walk(ld.node) if isinstance(n, ast.Return) and isinstance(n.value, ast.Call)]
+        in_body = lambda r: any(r is x for b_ in tst.body for x in ast.walk(b_))  # noqa: E731
+        two_d = [r for r in rets_ if ast.unparse(r.value.func) == "FrequencyDirectionSpectrum"]
+        one_d = [r for r in rets_ if ast.unparse(r.value.func) == "FrequencySpectrum"]
+        body_returns = bool(tst.body) and isinstance(tst.body[-1], ast.Return)
+        # with a direction coordinate: only the 2-D constructor; without: only the 1-D one (else branch or fall-through)
+        okl = bool(two_d) and bool(one_d) and all(in_body(r) for r in two_d) and not any(in_body(r) for r in one_d) \
+            and body_returns and len(two_d) + len(one_d) == len(rets_)
     ctx.expect(okl, "R15.3", "load_spectrum_from_netcdf[dispatch]",
                "a file with a direction coordinate loads as a 2-D spectrum, anything else as a 1-D spectrum", ld.loc())
     sv = p.get_method(CLS_WS, "save_as_netcdf")
     ctx.expect(any(ast.unparse(c.func) == "self.dataset.to_netcdf" for c in calls(sv.node)), "R15.3", "WaveSpectrum.save_as_netcdf",
                "the whole dataset (all variables and coordinates) is written", sv.loc())
-    # concatenate
+    # concatenate: decided on the extracted result for two symbolic inputs (list comprehension or loop, the same term)
     cc = p.get_function("wavespectra.operations.concatenate_spectra")
-    concat = [c for c in calls(cc.node) if ast.unparse(c.func) == "xarray.concat"]
-    okc = False
-    if len(concat) == 1:
-        a0 = concat[0].args[0] if concat[0].args else None
-        dimkw = next((k.value for k in concat[0].keywords if k.arg == "dim"), None)
-        vloop = [n for n in own_walk(cc.node) if isinstance(n, ast.For) and concat[0] in list(ast.walk(n)) and isinstance(n.target, ast.Name)]
-        vname = vloop[0].target.id if len(vloop) == 1 else "?"
-        okc = isinstance(a0, ast.ListComp) and len(a0.generators) == 1 and ast.unparse(a0.generators[0].iter) == cc.params[0] \
-            and not a0.generators[0].ifs and isinstance(a0.generators[0].target, ast.Name) \
-            and ast.unparse(a0.elt) == f"{a0.generators[0].target.id}.dataset[{vname}]" and dimkw is not None \
-            and ast.unparse(dimkw) == cc.params[1]
-    ctx.expect(okc, "R15.3", "concatenate_spectra[order and dim]",
-               "every variable is concatenated over the inputs in their given order along the one requested dimension", cc.loc())
-    rets = [n for n in own_walk(cc.node) if isinstance(n, ast.Return)]
-    okr = bool(rets) and all(ctor_of(cc.node, r) == f"type({cc.params[0]}[0])" for r in rets)
-    ctx.expect(okr, "R15.3", "concatenate_spectra[result class]", "the result has the class of the inputs", cc.loc())
-    loops = [n for n in own_walk(cc.node) if isinstance(n, ast.For) and ast.unparse(n.iter) == "spectra[0]"]
-    ctx.expect(len(loops) == 1, "R15.3", "concatenate_spectra[all variables]", "all variables of the inputs are concatenated", cc.loc())
+    from ..interp import make_self
+    for cls_q in (CLS_1D, CLS_2D):
+        itc = spec_interp(p)
+        dimv = P("dim")
+        itc.nonnull.add(dimv)
+        A = make_self(p, cls_q, fields={"dataset": P("dsA")})
+        B = make_self(p, cls_q, fields={"dataset": P("dsB")})
+        rc = itc.call_function(cc, [[A, B], dimv], {}, None)
+        cname = cls_q.rsplit(".", 1)[-1]
+        okr = isinstance(rc, Obj) and rc.cls is A.cls
+        ctx.expect(okr, "R15.3", f"concatenate_spectra[result class,{cname}]", "the result has the class of the inputs", cc.loc())
+        if cls_q != CLS_1D:
+            ctx.absorb(itc)
+            continue
+        dsr = rc.fields.get("dataset") if isinstance(rc, Obj) else None
+        fam = [(T.to_term(k), T.to_term(v)) for k, v in dsr.items.items() if not isinstance(k, str)] if isinstance(dsr, DatasetVal) else []
+        fam = [(k, v) for k, v in fam if fname(k) == "elem"]
+        okc = okall = False
+        if len(fam) == 1:
+            k, v = fam[0]
+            inner = v.args[1] if fname(v) == "guarded" else v
+            guard = v.args[0] if fname(v) == "guarded" else T.TRUE_T
+            want = op("concat", sp.Tuple(op("item", P("dsA"), k), op("item", P("dsB"), k)), dimv)
+            okc = T.equivalent(inner, want) == T.Verdict.EQUAL and guard in (T.CMP("ne", k, dimv), T.NOT(T.CMP("eq", k, dimv)))
+            okall = len(k.args) >= 1 and k.args[0] in (T.to_term(A), T.to_term(A.fields["dataset"]) if hasattr(A, "fields") else None)
+        ctx.expect(okc, "R15.3", "concatenate_spectra[order and dim]",
+                   "every variable is concatenated over the inputs in their given order along the one requested dimension", cc.loc(),
+                   derived=T.show(fam[0][1], 200) if fam else "no per-variable entry")
+        ctx.expect(okall, "R15.3", "concatenate_spectra[all variables]", "all variables of the (first) input are concatenated", cc.loc(),
+                   derived=T.show(fam[0][0], 120) if fam else "")
+        ctx.absorb(itc)
     # __getitem__ splits spectral / space-time indices; isel/sel apply to every variable
     for name in ("isel", "sel"):
         m = dw.find_method(name)
